@@ -667,16 +667,28 @@ fn snapshot(ex: &mut CommandExecutor) -> Vec<String> {
     out
 }
 
-/// The documented RESP -> Lua -> RESP conversion applied to a direct reply.
+/// The documented RESP -> Lua -> RESP conversion applied to a direct reply (the Redis EVAL conversion table): a nil reply
+/// becomes the Lua boolean false and false becomes nil again, so nil elements stay where they are; a null array comes back
+/// as a nil bulk.
 fn convert(r: &RespValue) -> RespValue {
+    match r {
+        RespValue::Array(None) => RespValue::BulkString(None),
+        RespValue::Array(Some(v)) => RespValue::Array(Some(v.iter().map(convert).collect())),
+        other => other.clone(),
+    }
+}
+
+/// What a conversion that hands nil replies to Lua as `nil` (instead of `false`) makes of a reply: every table ends at its
+/// first nil element. Used only to *name* that one deviation, never to accept anything.
+fn convert_nil_as_lua_nil(r: &RespValue) -> RespValue {
     match r {
         RespValue::Array(None) => RespValue::BulkString(None),
         RespValue::Array(Some(v)) => {
             let mut out = vec![];
             for e in v {
-                let c = convert(e);
+                let c = convert_nil_as_lua_nil(e);
                 if c == RespValue::BulkString(None) {
-                    break; // a Lua table ends at the first nil
+                    break;
                 }
                 out.push(c);
             }
@@ -685,6 +697,8 @@ fn convert(r: &RespValue) -> RespValue {
         other => other.clone(),
     }
 }
+
+const NIL_TRUNCATES: &str = "nil-element-arrives-as-lua-nil:reply-ends-there";
 
 fn multiset(r: &RespValue) -> Vec<String> {
     fn flat(r: &RespValue, out: &mut Vec<String>) {
@@ -727,8 +741,12 @@ fn script_verdict(name: &str, o: &PairOut) -> Option<(&'static str, &'static str
         (d, sc) => {
             let want = convert(d);
             let same = &want == sc || (UNORDERED.contains(&name) && multiset(&want) == multiset(sc));
+            let cut = convert_nil_as_lua_nil(d);
             if same || nondet {
                 None
+            } else if cut != want && (&cut == sc || (UNORDERED.contains(&name) && multiset(&cut) == multiset(sc))) {
+                // exactly the direct reply cut at its first nil element: one root cause, whatever the command
+                Some(("reply-differs", NIL_TRUNCATES))
             } else {
                 Some(("reply-differs", ""))
             }
@@ -803,8 +821,11 @@ fn check_script_case(rep: &mut Report, v: &Vocab, st: &mut SStats, name: &str, a
     };
     let sa = to_argv(&head, &small);
     let so = run_twins(state, &sa, mode).expect("shrunk case runs");
+    if class == NIL_TRUNCATES {
+        rep.count(&format!("nil_element_truncation_seen:{}", name));
+    }
     rep.violation(
-        format!("C16|script|{}|{}|{}", name, target.0, class),
+        if class == NIL_TRUNCATES { format!("C16|script|conversion|{}", NIL_TRUNCATES) } else { format!("C16|script|{}|{}|{}", name, target.0, class) },
         format!("direct -> {:?} ; redis.{} -> {:?} ; keyspace direct {:?} ; keyspace scripted {:?}", so.direct, mode, so.scripted, so.ks_direct, so.ks_script),
         wit(&sa),
     );
@@ -830,7 +851,29 @@ fn multi_call_cases(rep: &mut Report) {
         vec![w(&["ZADD", "z", "1", "m 2 n"]), w(&["ZADD", "z", "1", "m", "2", "n"]), w(&["ZCARD", "z"])],
         vec![w(&["SET", "k", "1"]), w(&["GET", "k"]), w(&["SET", "k", "2"]), w(&["GET", "k"])],
     ];
-    for (gi, cmds) in groups.iter().enumerate() {
+    // Any command first, then writes and reads in the same run: what a call did or returned must not change what the later
+    // calls of the run mean. `skip` = a reply that legitimately differs between two executors (hash order, clock) - its
+    // command still runs on both sides and everything after it is compared.
+    let mut groups: Vec<(Vec<Vec<Vec<u8>>>, Option<usize>)> = groups.into_iter().map(|g| (g, None)).collect();
+    let setup = [w(&["SET", "k", "v"]), w(&["SADD", "s1", "only"]), w(&["HSET", "h", "f", "v"]), w(&["ZADD", "z", "1", "m"]), w(&["RPUSH", "q", "a"])];
+    let tail = [w(&["SET", "w", "1"]), w(&["INCR", "w"]), w(&["APPEND", "k", "+"]), w(&["HSET", "h", "g", "2"]), w(&["LPUSH", "q", "b"]), w(&["DEL", "z"]), w(&["EXPIRE", "w", "100"]), w(&["GET", "w"]), w(&["GET", "k"]), w(&["LRANGE", "q", "0", "-1"]), w(&["EXISTS", "z", "h"])];
+    let firsts: Vec<(Vec<Vec<u8>>, bool)> = vec![
+        (w(&["TIME"]), true), (w(&["RANDOMKEY"]), true), (w(&["SCAN", "0"]), true), (w(&["SCAN", "0", "MATCH", "k*", "COUNT", "100"]), true), (w(&["KEYS", "*"]), false),
+        (w(&["SPOP", "s1"]), false), (w(&["SRANDMEMBER", "s1"]), false), (w(&["HSCAN", "h", "0"]), false), (w(&["ZSCAN", "z", "0"]), false), (w(&["SSCAN", "s1", "0"]), false),
+        (w(&["DBSIZE"]), false), (w(&["TTL", "k"]), false), (w(&["PTTL", "k"]), false), (w(&["TYPE", "h"]), false), (w(&["EXISTS", "k"]), false), (w(&["GET", "k"]), false), (w(&["GET", "h"]), false),
+        (w(&["LRANGE", "q", "0", "-1"]), false), (w(&["SMEMBERS", "s1"]), false), (w(&["HGETALL", "h"]), false), (w(&["ZRANGE", "z", "0", "-1", "WITHSCORES"]), false), (w(&["ECHO", "x"]), false),
+        (w(&["PING"]), false), (w(&["INFO"]), true), (w(&["OBJECT", "ENCODING", "k"]), false), (w(&["STRLEN", "k"]), false), (w(&["GETRANGE", "k", "0", "-1"]), false), (w(&["INCR", "k"]), false),
+        (w(&["LPOP", "nolist"]), false), (w(&["NOSUCHCOMMAND"]), false), (w(&["SET", "k"]), false), (w(&["EXPIRE", "k", "100"]), false), (w(&["PERSIST", "k"]), false), (w(&["FLUSHDB"]), false),
+        (w(&["SETEX", "e", "100", "v"]), false), (w(&["GETDEL", "k"]), false), (w(&["RENAME", "k", "k2"]), false), (w(&["SORT", "q"]), false), (w(&["LINDEX", "q", "0"]), false), (w(&["ZSCORE", "z", "m"]), false),
+    ];
+    for (f, skip) in firsts {
+        let mut g: Vec<Vec<Vec<u8>>> = setup.to_vec();
+        let at = g.len();
+        g.push(f);
+        g.extend(tail.iter().cloned());
+        groups.push((g, skip.then_some(at)));
+    }
+    for (gi, (cmds, skip)) in groups.iter().enumerate() {
         for mode in ["call", "pcall"] {
             rep.evaluations += 1;
             rep.count("multi_call_scripts");
@@ -859,7 +902,7 @@ fn multi_call_cases(rep: &mut Report) {
                 argv_all.extend(c.iter().cloned());
             }
             let _ = mode;
-            let script = format!("local r = {{}}; {} return r", calls.iter().enumerate().map(|(i, c)| format!("local v{} = {}; if type(v{}) == 'table' and v{}.err then r[{}] = 'ERR:' .. v{}.err elseif type(v{}) == 'table' and v{}.ok then r[{}] = 'OK:' .. v{}.ok elseif v{} == false then r[{}] = 'NIL' else r[{}] = v{} end;", i, c, i, i, i + 1, i, i, i, i + 1, i, i, i + 1, i + 1, i)).collect::<Vec<_>>().join(" "));
+            let script = format!("local r = {{}}; {} return r", calls.iter().enumerate().map(|(i, c)| format!("local v{} = {}; if type(v{}) == 'table' and v{}.err then r[{}] = 'ERR:' .. v{}.err elseif type(v{}) == 'table' and v{}.ok then r[{}] = 'OK:' .. v{}.ok elseif v{} == false or v{} == nil then r[{}] = 'NIL' else r[{}] = v{} end;", i, c, i, i, i + 1, i, i, i, i + 1, i, i, i, i + 1, i + 1, i)).collect::<Vec<_>>().join(" "));
             let mut eval = vec![s("EVAL"), s(&script), s("0")];
             eval.extend(argv_all);
             let scripted = match guard(|| run_frame(&mut b, &eval)) {
@@ -881,7 +924,7 @@ fn multi_call_cases(rep: &mut Report) {
                 other => vec![other.clone()],
             };
             let same_reply = want.len() == got.len()
-                && want.iter().zip(&got).all(|(x, y)| match (x, y) {
+                && want.iter().zip(&got).enumerate().all(|(i, (x, y))| Some(i) == *skip || match (x, y) {
                     (RespValue::BulkString(Some(p)), RespValue::BulkString(Some(q))) if p.starts_with(b"ERR:") && q.starts_with(b"ERR:") => true,
                     (RespValue::Array(Some(p)), RespValue::Array(Some(q))) => multiset(&RespValue::Array(Some(p.clone()))) == multiset(&RespValue::Array(Some(q.clone()))),
                     _ => x == y,
@@ -889,13 +932,47 @@ fn multi_call_cases(rep: &mut Report) {
             let (ka, kb) = (snapshot(&mut a), snapshot(&mut b));
             rep.distinct(&("multi-call", gi, mode));
             if !same_reply || ka != kb {
-                let first = String::from_utf8_lossy(&cmds[0][0]).to_string();
+                let first = String::from_utf8_lossy(&cmds[if gi >= 12 { 5 } else { 0 }][0]).to_string();
                 rep.violation(
                     format!("C16|script|{}|calls-of-one-script-run-interfere|{}", first, if !same_reply { "reply-differs" } else { "keyspace-differs" }),
                     format!("commands {:?}: sent one by one -> {:?}, keyspace {:?}; as redis.pcall calls of one script -> {:?}, keyspace {:?}", cmds.iter().map(|c| c.iter().map(|x| lossy(x)).collect::<Vec<_>>()).collect::<Vec<_>>(), want, ka, got, kb),
                     json!({"multi_call": cmds.iter().map(|c| c.iter().map(|x| lossy(x)).collect::<Vec<_>>()).collect::<Vec<_>>()}),
                 );
             }
+        }
+    }
+}
+
+/// The RESP -> Lua side of the conversion table, observed from inside a script: the Lua type each kind of reply arrives as.
+fn conversion_probes(rep: &mut Report) {
+    let probes: [(&str, &str, &[&str], &str, &str); 8] = [
+        ("nil-bulk", "local v = redis.call('GET','missing'); return {type(v), tostring(v == false)}", &[], "boolean", "true"),
+        ("nil-bulk-in-array", "local v = redis.call('MGET','k','missing'); return {type(v[2]), tostring(v[2] == false)}", &[], "boolean", "true"),
+        ("nil-from-conditional-set", "local v = redis.call('SET','k','x','NX'); return {type(v), tostring(v == false)}", &[], "boolean", "true"),
+        ("status", "local v = redis.call('SET','w','1'); return {type(v), tostring(v.ok)}", &[], "table", "OK"),
+        ("error", "local v = redis.pcall('INCR','k'); return {type(v), tostring(v.err ~= nil)}", &[], "table", "true"),
+        ("integer", "local v = redis.call('STRLEN','k'); return {type(v), tostring(v)}", &[], "number", "1"),
+        ("bulk", "local v = redis.call('GET','k'); return {type(v), v}", &[], "string", "v"),
+        ("array", "local v = redis.call('MGET','k','k'); return {type(v), tostring(#v)}", &[], "table", "2"),
+    ];
+    for (what, script, _, ty, val) in probes {
+        rep.evaluations += 1;
+        rep.count("conversion_probes");
+        let mut ex = make_state(0);
+        let _ = run_frame(&mut ex, &[s("SET"), s("k"), s("v")]);
+        let got = match guard(|| run_frame(&mut ex, &[s("EVAL"), s(script), s("0")])) {
+            Ok(r) => r,
+            Err(_) => continue,
+        };
+        let want = RespValue::Array(Some(vec![RespValue::BulkString(Some(ty.as_bytes().to_vec())), RespValue::BulkString(Some(val.as_bytes().to_vec()))]));
+        rep.distinct(&("conversion-probe", what));
+        if got != want {
+            let lua_nil = matches!(&got, RespValue::Array(Some(v)) if v.first() == Some(&RespValue::BulkString(Some(b"nil".to_vec()))));
+            rep.violation(
+                if what.starts_with("nil-") && lua_nil { "C16|script|conversion|nil-reply-arrives-as-lua-nil-not-false".to_string() } else { format!("C16|script|conversion|{}-arrives-as-something-else", what) },
+                format!("{}: `{}` -> {:?}, the conversion table says {:?} (a nil reply is the Lua boolean false, so `== false` holds and tables keep their length)", what, script, got, want),
+                json!({"probe": what, "script": script}),
+            );
         }
     }
 }
@@ -965,6 +1042,7 @@ pub fn script_leg(args: &Args) {
     rep.max("names_in_scope", names.len() as u64);
     if args.shard == 0 {
         multi_call_cases(&mut rep);
+        conversion_probes(&mut rep);
     }
     rep.max("names_known_to_redis_call", lua_known.len() as u64);
     rep.note(format!("names the redis.call translator knows: {:?}; excluded as not script-invocable: {:?}", lua_known, NOSCRIPT));
